@@ -298,6 +298,10 @@ impl CachedTimeZone {
     ) -> Result<Option<CachedTimeZone>, Error> {
         #[cfg(jiff_verif)]
         crate::verif::point("cc.new.open");
+        #[cfg(jiff_verif)]
+        if crate::verif::fault("cc.new.open") {
+            return Err(Error::io(crate::verif::injected_error()).path(path));
+        }
         let file = File::open(path).map_err(|e| Error::io(e).path(path))?;
         // The last modified time must be read *before* the data. See the
         // comment in the corresponding zoneinfo routine.
@@ -566,6 +570,10 @@ fn read_names_and_version(
 ) -> Result<(Vec<Arc<str>>, ArrayStr<5>), Error> {
     #[cfg(jiff_verif)]
     crate::verif::point("cc.names.open");
+    #[cfg(jiff_verif)]
+    if crate::verif::fault("cc.names.open") {
+        return Err(Error::io(crate::verif::injected_error()).path(path));
+    }
     let file = File::open(path).map_err(|e| Error::io(e).path(path))?;
     let db = ConcatenatedTzif::open(file)?;
     let names: Vec<Arc<str>> =
